@@ -1225,7 +1225,13 @@ def observe(run, result, extra, before, op=None):
     after = snapshot(run)
     frame_ok = all(after[k][1] == s for k, (wr, s, _) in before.items() if k in after and after[k][0]() is wr())
     hash_ok = all(s[3] == hash(s[1]) for _, s, _ in after.values())
-    member_ok = exempt or all(after[k][2] == m for k, (wr, _, m) in before.items() if k in after and after[k][0]() is wr())
+    flips = [(m, after[k][2]) for k, (wr, _, m) in before.items() if k in after and after[k][0]() is wr() and after[k][2] != m]
+    if op is not None and op.name == "Replace" and exempt:
+        # a replace() that returned un-registers its receiver and nothing else (seeded change C10-14: it also detached the
+        # children the new node no longer refers to)
+        member_ok = len(flips) <= 1 and all(was and not now for was, now in flips)
+    else:
+        member_ok = exempt or not flips
     return Con("Step", result, pervar, fresh, seen, extra, Con("Frame", frame_ok, hash_ok, member_ok)), after
 
 
